@@ -52,10 +52,27 @@ func (r *rec) ct() string {
 type comp struct {
 	chunks []int
 	fail   bool
+	cause  int // index into failCauses when fail
 	nested bool
 }
 
+// The failure a component returns: every cause wraps errBoom so that the error handler's argument can be
+// checked; the others also match the sentinel errors a handler could be tempted to treat as "not a failure".
+var failCauses = []struct {
+	name string
+	err  error
+}{
+	{"plain", errBoom},
+	{"wraps context.Canceled", fmt.Errorf("load: %w", errors.Join(errBoom, context.Canceled))},
+	{"wraps context.DeadlineExceeded", fmt.Errorf("load: %w", errors.Join(errBoom, context.DeadlineExceeded))},
+	{"wraps io.EOF", fmt.Errorf("read: %w", errors.Join(errBoom, io.EOF))},
+	{"wraps http.ErrAbortHandler", fmt.Errorf("abort: %w", errors.Join(errBoom, http.ErrAbortHandler))},
+}
+
 func (c comp) String() string {
+	if c.fail {
+		return fmt.Sprintf("chunks=%v fail=%s nested=%v", c.chunks, failCauses[c.cause].name, c.nested)
+	}
 	return fmt.Sprintf("chunks=%v fail=%v nested=%v", c.chunks, c.fail, c.nested)
 }
 
@@ -75,7 +92,7 @@ func (c comp) component() templ.Component {
 			}
 		}
 		if c.fail {
-			return errBoom
+			return failCauses[c.cause].err
 		}
 		return nil
 	})
@@ -156,9 +173,10 @@ func main() {
 	maxChunks := run.Pick(3, 4)
 	var gen func(cur []int)
 	gen = func(cur []int) {
-		for _, f := range []bool{false, true} {
-			for _, n := range []bool{false, true} {
-				comps = append(comps, comp{chunks: append([]int{}, cur...), fail: f, nested: n})
+		for _, n := range []bool{false, true} {
+			comps = append(comps, comp{chunks: append([]int{}, cur...), nested: n})
+			for k := range failCauses {
+				comps = append(comps, comp{chunks: append([]int{}, cur...), fail: true, cause: k, nested: n})
 			}
 		}
 		if len(cur) == maxChunks {
@@ -257,5 +275,5 @@ func main() {
 	run.Sample(map[string]any{"config": configs[3].String(), "component": comps[len(comps)-1].String()})
 	run.Sample(map[string]any{"config": configs[len(configs)-2].String(), "component": comps[5].String()})
 	run.Assumption("an error handler that writes a body without a status yields the implicit 200 it chose itself; the check requires the response to equal what the error handler alone writes")
-	run.Finish(evals, faults, "every component writing ≤ N chunks of sizes {1,100,5000} then failing or not, directly or nested under templ.Join × status {unset,200,201,404} × 3 content types × 5 error-handler shapes × buffered/streamed, each followed by three other renders over the shared buffer pool; non-trivial = buffered render that fails")
+	run.Finish(evals, faults, "every component writing ≤ N chunks of sizes {1,100,5000} then succeeding or failing with one of 5 causes (plain; wrapping context.Canceled, DeadlineExceeded, io.EOF, http.ErrAbortHandler), directly or nested under templ.Join × status {unset,200,201,404} × 3 content types × 5 error-handler shapes × buffered/streamed, each followed by three other renders over the shared buffer pool; non-trivial = buffered render that fails")
 }
